@@ -2,6 +2,8 @@
 //! Private names used: `Tokens { prev_secret, curr_secret, last_updated }`, `CASTAGNOLI`.
 //! Stand-ins: `tracing` (rotate() logs).
 use super::*;
+#[allow(unused_imports)]
+use crate::verif_env::k as kani;
 use crate::verif_env::{clock, rnd};
 
 fn any_tokens_at(t: u64) -> Tokens {
